@@ -14,6 +14,7 @@ maximization recursions are *arbitrary functions* of arguments that are proved u
 -/
 import TsdateVerif.Proofs.ScaleDiscrete
 import TsdateVerif.Proofs.ScaleConstrain
+import TsdateVerif.Proofs.ScaleEP
 
 namespace Tsdate.C06
 open Tsdate Tsdate.Scale
@@ -123,6 +124,121 @@ theorem forced_additions_commute (c : α) (hc : 0 < c) (eps : α) (next next' : 
   show max (c * x + c * eps) (next' (c * x)) = c * max (x + eps) (next x)
   rw [hn, ← mul_add, mul_max_of_nonneg _ _ (le_of_lt hc)]
 
+/-! ### time rescaling of the variational method (tsdate/rescaling.py) -/
+
+/-- **`mutational_area` is graded**: node times in a unit `c` times smaller, mutational target sizes
+`μ·span` as rates (`k·m`, `c·k = 1`) ⇒ `counts` and `offset` are rates, `duration` is a time, the epoch
+index of every node is the same (it is found by sorting and comparing times). -/
+theorem mutational_area_graded (c k : α) (hc : 0 < c) (hk : c * k = 1) (t : List α) (lik : List (α × α))
+    (edges : List (Nat × Nat)) :
+    mutArea (smul c t) (rateRows k lik) edges =
+      (smul k (mutArea t lik edges).1, smul k (mutArea t lik edges).2.1,
+        smul c (mutArea t lik edges).2.2.1, (mutArea t lik edges).2.2.2) :=
+  mutArea_smul c k hc hk t lik edges
+
+/-- **`mutational_timescale` is equivariant** (`adjust = z·y/n` is time·rate/rate): the weights given to
+`_fixed_changepoints` are unchanged, so the same changepoints are chosen; both returned breakpoint
+vectors are multiplied by `c`. -/
+theorem mutational_timescale_equivariant (ofNat : Nat → α) (c k : α) (hc : 0 < c) (hk : c * k = 1)
+    (t : List α) (lik : List (α × α)) (edges : List (Nat × Nat)) (maxIntervals : Nat) :
+    mutTimescale ofNat (smul c t) (rateRows k lik) edges maxIntervals =
+      (smul c (mutTimescale ofNat t lik edges maxIntervals).1,
+        smul c (mutTimescale ofNat t lik edges maxIntervals).2) :=
+  mutTimescale_smul ofNat c k hc hk t lik edges maxIntervals
+
+/-- **`piecewise_scale_point_estimate` is equivariant**: breakpoints scale, slopes are unchanged, each
+point falls in the same interval, mapped times scale. -/
+theorem piecewise_equivariant (c : α) (hc : 0 < c) (x : List α) (fixed : List Bool) (orig resc : List α) :
+    piecewisePoint (smul c x) fixed (smul c orig) (smul c resc) = smul c (piecewisePoint x fixed orig resc) :=
+  piecewisePoint_smul c hc x fixed orig resc
+
+/-- **The rescaling loop** (`rescale_iterations` rounds of timescale + piecewise map) is equivariant. -/
+theorem rescale_loop_equivariant (ofNat : Nat → α) (c k : α) (hc : 0 < c) (hk : c * k = 1)
+    (lik : List (α × α)) (edges : List (Nat × Nat)) (fixed : List Bool) (maxIntervals n : Nat) (t : List α) :
+    rescaleLoop ofNat (rateRows k lik) edges fixed maxIntervals n (smul c t)
+      = smul c (rescaleLoop ofNat lik edges fixed maxIntervals n t) :=
+  rescaleLoop_smul ofNat c k hc hk lik edges fixed maxIntervals n t
+
+/-! ### expectation propagation (tsdate/variational.py) -/
+
+/-- `_damp` does not see the unit of time. -/
+theorem damp_invariant (k : α) (hk : 0 < k) (x y : α × α) (s : α) :
+    damp (rmul k x) (rmul k y) s = damp x y s := Scale.damp_invariant k hk x y s
+
+/-- `_rescale` does not see the unit of time. -/
+theorem rescale_invariant (k : α) (hk : 0 < k) (x : α × α) (s : α) :
+    rescaleEta (rmul k x) s = rescaleEta x s := rescaleEta_invariant k hk x s
+
+/-- **One edge update** of `propagate_likelihood` (skip / leafward / rootward / joint case), GIVEN
+projection kernels that map rates to rates (`ProjEquivariant`; to be discharged for the translated
+kernels): posterior and factor rates are multiplied by `k = 1/c`, shapes and the node scales unchanged,
+the same damping and the same `max_shape` capping are applied. -/
+theorem ep_edge_update_equivariant (c k : α) (hc : 0 < c) (hk : 0 < k) (P : Projections α)
+    (hP : ProjEquivariant c k P) (edges : List (Nat × Nat)) (lik : List (α × α))
+    (fixedAge : List (Option α)) (maxShape minStep tiny : α) (s : EPState α) (ei : Nat) :
+    edgeUpdate P edges (lik.map (rmul k)) (fixedAge.map (Option.map (fun t => c * t))) maxShape minStep tiny
+        (s.rate k) ei
+      = (edgeUpdate P edges lik fixedAge maxShape minStep tiny s ei).rate k :=
+  edgeUpdate_rate c k hc hk P hP edges lik fixedAge maxShape minStep tiny s ei
+
+/-- **`propagate_prior`**: the exponential regularisation penalty is a rate, the EM stopping rule
+compares rates with rates, so the same number of EM steps is taken. -/
+theorem propagate_prior_equivariant (ofNat : Nat → α) (k : α) (hk : 0 < k) (free : List Bool)
+    (maxShape reltol : α) (maxitt : Nat) (s : EPState α) :
+    propagatePrior ofNat free maxShape reltol maxitt (s.rate k)
+      = (propagatePrior ofNat free maxShape reltol maxitt s).rate k :=
+  propagatePrior_rate ofNat k hk free maxShape reltol maxitt s
+
+/-- **Any number of full EP iterations** (likelihood pass over the edge order, `propagate_prior`,
+`_rescale_factors`), by induction over edges and iterations, given equivariant projections. -/
+theorem ep_iterate_equivariant (c k : α) (hc : 0 < c) (hk : 0 < k) (P : Projections α)
+    (hP : ProjEquivariant c k P) (ofNat : Nat → α) (edges : List (Nat × Nat)) (lik : List (α × α))
+    (fixedAge : List (Option α)) (roots : List Bool) (regularise : Bool)
+    (maxShape minStep tiny reltol : α) (maxitt : Nat) (order : List Nat) (n : Nat) (s : EPState α) :
+    epRun P ofNat edges (lik.map (rmul k)) (fixedAge.map (Option.map (fun t => c * t))) roots regularise
+        maxShape minStep tiny reltol maxitt order n (s.rate k)
+      = (epRun P ofNat edges lik fixedAge roots regularise maxShape minStep tiny reltol maxitt order n s).rate k :=
+  epRun_rate c k hc hk P hP ofNat edges lik fixedAge roots regularise maxShape minStep tiny reltol maxitt order n s
+
+/-- **C06 for `variational_gamma`, partial** (`rescaling_intervals = 0`): the posterior means and variances
+returned by `node_moments` after any number of EP iterations from the all-zero state are multiplied by
+`c` and `c²`.  Hypothesis: equivariant projection kernels.  Outside: mutation posteriors,
+`piecewise_scale_posterior` (its point-estimate loop is `rescale_loop_equivariant`), unphased singletons. -/
+theorem C06_vgamma_partial (c k : α) (hc : 0 < c) (hk : 0 < k) (hck : c * k = 1) (P : Projections α)
+    (hP : ProjEquivariant c k P) (ofNat : Nat → α) (edges : List (Nat × Nat)) (lik : List (α × α))
+    (fixedAge : List (Option α)) (roots : List Bool) (regularise : Bool)
+    (maxShape minStep tiny reltol : α) (maxitt : Nat) (order : List Nat) (n : Nat) (s : EPState α) :
+    nodeMoments (fixedAge.map (Option.map (fun t => c * t)))
+        (epRun P ofNat edges (lik.map (rmul k)) (fixedAge.map (Option.map (fun t => c * t))) roots regularise
+          maxShape minStep tiny reltol maxitt order n (s.rate k)).post
+      = (nodeMoments fixedAge
+          (epRun P ofNat edges lik fixedAge roots regularise maxShape minStep tiny reltol maxitt order n s).post).map
+          (fun mv => (c * mv.1, c * c * mv.2)) := by
+  rw [epRun_rate c k hc hk P hP]
+  exact nodeMoments_rate c k hck fixedAge _
+
+/-- the all-zero initial state of `ExpectationPropagation.__init__` is its own rescaling -/
+theorem initial_state_rate (k : α) (n m : Nat) :
+    ({ post := List.replicate n (0, 0), edgeFac := List.replicate m ((0, 0), (0, 0)),
+       nodeFac := List.replicate n (0, 0), scale := List.replicate n 1 } : EPState α).rate k
+      = { post := List.replicate n (0, 0), edgeFac := List.replicate m ((0, 0), (0, 0)),
+          nodeFac := List.replicate n (0, 0), scale := List.replicate n 1 } := by
+  simp [EPState.rate, rmul, rmul2]
+
+/-- **Posterior means through the constraint step**: means that scale by `c` (any method) give node times
+that scale by `c` after `_constrain_ages` with `min_branch_length` × c. -/
+theorem C06_means_to_node_times [Inhabited α] (c : α) (hc : 0 < c) (fixed : Array Bool) (eps : α)
+    (es : List Edge) (means : List α) (iters : Nat) (hr : InRange means.length es) :
+    ARel c (constrainAges (· + eps) (· + eps) fixed eps es means.toArray iters)
+      (constrainAges (· + c * eps) (· + c * eps) fixed (c * eps) es (smul c means).toArray iters) := by
+  apply constrainAges_rel c hc (· + eps) (· + eps) (· + c * eps) (· + c * eps)
+    (fun x => by ring) (fun x => by ring)
+  · refine ⟨by simp, ?_⟩
+    intro i hi
+    have hi' : i < means.length := by simpa using hi
+    simp [aget, smul, hi']
+  · simpa using hr
+
 /-! ### the whole statement -/
 
 /-- Input of a run as far as units of time are concerned, and its output. -/
@@ -154,6 +270,17 @@ example : likArgs [10, 20, 10, 40, 30, 10] (3 : Rat) 7 = [210, 420, 210, 840, 63
 example : (meanVar [1, 2, 1] [0, 10, 30] : Rat × Rat) = (25 / 2, 475 / 4) := by
   simp [meanVar, sumL]; norm_num
 example : InRange 5 [⟨3, 0⟩, ⟨3, 1⟩, ⟨4, 2⟩, ⟨4, 3⟩] := by simp [InRange]
+-- a two-leaf tree with root 2 (nodes sorted by time): one epoch [0, 2); edge (2,0) with 4 mutations
+example : epochIndex 3 [((0 : Rat), 0), (0, 1), (2, 2)] = ([0, 2], [0, 0, 1]) := by decide +kernel
+example : areaEdge [0, 0, (2 : Rat)] [0, 0, 1] 1 [(0, 0)] ((2, 0), (4, 3)) = [(2, 3)] := by decide +kernel
+example : piecewisePoint [(1 : Rat), 2] [false, false] [0, 2, 10] [0, 1, 10] = [1 / 2, 1] := by
+  decide +kernel
+example : damp ((1 : Rat), 4) (3 / 2, 1) (1 / 10) = damp ((1 : Rat), 4 * 7) (3 / 2, 1 * 7) (1 / 10) := by
+  decide +kernel
+-- a projection that satisfies `ProjEquivariant`: method of moments on (mean, variance) of given degree
+example (c k : Rat) : ProjEquivariant c k
+    { gamma := fun pi pj _ => (pi, pj), rootward := fun _ pi _ => pi, leafward := fun _ pj _ => pj } :=
+  ⟨fun _ _ _ => rfl, fun _ _ _ => rfl, fun _ _ _ => rfl⟩
 example : ARel (10 : Rat) #[0, 0, 0, 5, 2] #[0, 0, 0, 50, 20] := by
   refine ⟨rfl, fun i hi => ?_⟩
   have : i = 0 ∨ i = 1 ∨ i = 2 ∨ i = 3 ∨ i = 4 := by
